@@ -66,7 +66,7 @@ func (c Config) String() string {
 
 const (
 	bucket   = "ca-bucket"
-	certDir  = "certs"
+	certDirDefault = "certs"
 	rootPath = "root.crt"
 )
 
@@ -201,11 +201,11 @@ func (a *Authority) newProcess(faulty bool) (*process, error) {
 		p.ca, p.caI = a.MemCA, a.MemCA
 	case "gcsca":
 		ca := &gcsca.CertificateAuthority{Storage: a.storage(faulty), PrivateBucket: bucket,
-			SigningCertDirInGCS: certDir, RootPath: rootPath}
+			SigningCertDirInGCS: certDir(a.R), RootPath: rootPath}
 		p.ca, p.caI = ca, ca
 	case "localca":
 		ca := &gcsca.CertificateAuthority{Storage: a.storage(faulty), PrivateBucket: bucket,
-			SigningCertDirInGCS: certDir, RootPath: rootPath}
+			SigningCertDirInGCS: certDir(a.R), RootPath: rootPath}
 		p.ca, p.caI = &localca.T{CA: ca}, ca
 	default:
 		return nil, fmt.Errorf("unknown ca %q", a.Cfg.CA)
@@ -235,10 +235,14 @@ type RotArgs struct {
 	SerialBig      *big.Int // overrides SerialOverride (serials beyond 64 bits)
 }
 
+// certDir is the directory for signing certificates as the operator spelled it for this run
+// (run setting "cert-dir"; any spelling names the same directory).
+func certDir(r *core.Run) string { return r.Var("cert-dir", certDirDefault) }
+
 func (a *Authority) caFlags() []string {
 	var out []string
 	if a.Cfg.CA == "gcsca" || a.Cfg.CA == "localca" {
-		out = append(out, "--bucket", bucket, "--cert_dir", certDir, "--root_path", rootPath)
+		out = append(out, "--bucket", bucket, "--cert_dir", certDir(a.R), "--root_path", rootPath)
 	}
 	if a.Cfg.CA == "localca" {
 		out = append(out, "--bucket_root", filepath.Join(a.Dir, "bucketroot"))
